@@ -20,12 +20,12 @@ ASSUMPTIONS = [
     "the documented pipeline: z0 takes precedence over ustar; levels = output_levels | range(nz+1) if full_output | nz",
     "both sides execute the same arithmetic, so equality is bitwise (NaNs compare equal)",
 ]
-MIN_NONTRIVIAL = {"quick": 60, "thorough": 800}
-TIMEOUT = {"quick": 900, "thorough": 3000}
+MIN_NONTRIVIAL = {"quick": 60, "thorough": 3200}
+TIMEOUT = {"quick": 900, "thorough": 7000}
 
 
 def cases(tier, seed):
-    n = 96 if tier == "quick" else 1280
+    n = 96 if tier == "quick" else 6400
     return [{"seed": seed, "idx": i} for i in range(n)]
 
 
